@@ -240,13 +240,15 @@ pub fn draw_vol(rng: &mut Rng, fat: u8, small_root: bool) -> VolCfg {
     } else {
         per_sec * (*rng.pick(&[1u16, 2, 4, 8, 16]))
     };
+    // mostly comfortable sizes, sometimes right at the limits of the FAT width (last representable clusters)
+    let edge = rng.chance(1, 5);
     let clusters: u32 = match fat {
-        12 => rng.range(8, 4000) as u32,
-        16 => rng.range(4100, 9000) as u32,
-        _ => rng.range(65_600, 70_000) as u32,
+        12 => if edge { rng.range(4060, 4084) as u32 } else { rng.range(8, 4000) as u32 },
+        16 => if edge { if rng.chance(1, 2) { rng.range(4085, 4100) as u32 } else { rng.range(65_480, 65_524) as u32 } } else { rng.range(4100, 9000) as u32 },
+        _ => if edge { rng.range(65_525, 65_560) as u32 } else { rng.range(65_600, 70_000) as u32 },
     };
     // rough estimate; format decides the exact layout, draw_valid() retries on rejection
-    let fat_secs = ((u64::from(clusters) + 2) * u64::from(fat) / 8 / u64::from(bps) + 1) as u32 * u32::from(fats);
+    let fat_secs = (((u64::from(clusters) + 2) * u64::from(fat) + 8 * u64::from(bps) - 1) / (8 * u64::from(bps))) as u32 * u32::from(fats);
     let root_secs = u32::from(root_entries) * 32 / u32::from(bps);
     let reserved = if fat == 32 { 8 } else { 1 };
     let total = reserved + fat_secs + root_secs + clusters * u32::from(spc) + rng.below(u64::from(spc)) as u32;
